@@ -221,6 +221,7 @@ Fixpoint prp_second (fuel : nat) (A Aorder prime n phin : Z) (Lf : list Z) : opt
   end.
 Definition prim_root_of_prime (n : Z) (Lf : list Z) : option Z :=
   let phin := n - 1 in
+  if phin =? 1 then Some 1 else     (* fix-6: n = 2 *)
   match prp_first 200 2 n phin Lf [] [] with
   | None => None
   | Some (A, prime, Aorder, Lf') => prp_second 200 A Aorder prime n phin Lf'
@@ -302,6 +303,7 @@ Fixpoint logp_down (pows : list Z) (puiss a res : Z) : Z :=
                   else logp_down tl puiss a res
   end.
 Definition logp (a p : Z) : Z :=
+  if a <? p then 0 else             (* fix-5 *)
   match logp_up (log2_fuel a) p a [] with
   | [] => 0
   | top :: rest => logp_down rest top a (2 ^ Z.of_nat (length rest))
